@@ -19,7 +19,7 @@ def isLazy : Event → Bool
 lazily evaluated callable, the formatter or a sink — in either syntactic form, with any number of
 callables. -/
 theorem disabled_no_effect (cfg : Cfg) (th : Nat → Sev) (sev : Sev) (tag : Option Str) (items : List Item)
-    (named : Option Nat) (h : sev < cfg.minSev ∨ evalF th cfg.filter sev = false) :
+    (named : Option Nat) (h : sev < cfg.minSev ∨ evalF th cfg.filter sev tag = false) :
     statement cfg th sev tag items named = [] :=
   nothing_when_disabled cfg th sev tag items named h
 
@@ -37,7 +37,7 @@ the callable events of the statement are exactly its callables, in statement ord
 them precede the formatter. -/
 theorem enabled_once_in_place (cfg : Cfg) (th : Nat → Sev) (sev : Sev) (tag : Option Str)
     (items : List Item) (named : Option Nat) (hmin : ¬ sev < cfg.minSev)
-    (hf : evalF th cfg.filter sev = true) :
+    (hf : evalF th cfg.filter sev tag = true) :
     (statement cfg th sev tag items named).filter isLazy = lazyCalls items ∧
     (statement cfg th sev tag items named).take (lazyCalls items).length = lazyCalls items := by
   rw [statement_spec]
@@ -112,7 +112,7 @@ emitted record whose statement contains values that leave the string stream fail
 events are exactly the statement's callables in statement order — in either syntactic form. -/
 theorem enabled_once_despite_failure (cfg : Cfg) (th : Nat → Sev) (sev : Sev) (tag : Option Str)
     (raw : List RawItem) (named : Option Nat) (hmin : ¬ sev < cfg.minSev)
-    (hf : evalF th cfg.filter sev = true) :
+    (hf : evalF th cfg.filter sev tag = true) :
     (statement cfg th sev tag (silence false raw) named).filter isLazy = rawCalls raw := by
   rw [(enabled_once_in_place cfg th sev tag (silence false raw) named hmin hf).1, lazyCalls_silence]
 
@@ -125,5 +125,21 @@ theorem stream_type (minSev sev : Sev) : streamIsNull minSev sev = true ↔ sev 
   simp [streamIsNull]
 
 example : (statement ⟨3, .null, 1⟩ (fun _ => 0) 2 none [.lazy 1 ['x']] none) = [] := by decide
+
+/-- **The runtime filter is asked about the record the formatter would receive — tag included.**  A
+statement carrying the tag a user-written filter mutes produces no event at all: no callable is
+called, nothing is formatted, no sink is invoked, in either syntactic form. -/
+theorem muted_tag_no_effect (minSev members : Nat) (th : Nat → Sev) (sev : Sev) (t : Str)
+    (items : List Item) (named : Option Nat) :
+    statement ⟨minSev, .tagNot t, members⟩ th sev (some t) items named = [] :=
+  disabled_no_effect _ th sev (some t) items named (Or.inr (by simp [evalF]))
+
+/-- … and every other tag (or none, when the muted tag is not the empty one) passes that filter -/
+theorem other_tag_passes (th : Nat → Sev) (sev : Sev) (t : Str) (tag : Option Str) (h : tag.getD [] ≠ t) :
+    evalF th (.tagNot t) sev tag = true := by
+  simp [evalF, h]
+
+example : statement ⟨0, .and (.thr 0) (.tagNot ['T']), 1⟩ (fun _ => 0) 2 (some ['T']) [.lazy 1 ['x']] (some 0) = [] := by
+  decide
 
 end NitroVerif.Props.C10
